@@ -47,7 +47,8 @@ RULE = ("per importer (ch.swisscard2, ch.viac, ch.cumulus, ch.postfinance, ch.sw
         "the extracted statement-level specification (Spec/ImpStmtB.v; interactivebrokers: Spec/ImpSpecIB.v) accepts the records "
         "(<importer>_statement_wf resp. ibs_wf) and <importer>_statement_output resp. ibs_statement_output of the "
         "records is byte-identical to the binary's stdout; (c) is evaluated whatever (a) and (b) say.  Damaged statements "
-        "(date, date format, amount, column count, currency/direction, account flag invalid or omitted) are compared with the model "
+        "(date, date format, amount, column count, currency/direction, account flag invalid or omitted, a bare quote or text after a "
+        "closing quote in a free-text field) are compared with the model "
         "only.  "
         "Reader (op C13.csv, generator C13csv, Model/Csv.v): 10^4 byte strings per quick run through Go's encoding/csv in-process "
         "(a loop of Read until io.EOF or the first error) and through the extracted model csv_read_all: texts written by the "
@@ -61,7 +62,7 @@ RULE = ("per importer (ch.swisscard2, ch.viac, ch.cumulus, ch.postfinance, ch.sw
         "the field count FieldsPerRecord demands (C13_csv_field_count); where the generator wrote records canonically under the "
         "side conditions of C13_csv_roundtrip, the extracted csv_write of them is the text (verdict writer) and Go read back "
         "exactly them (verdict roundtrip).  In every importer case of swisscard2, swisscard, cumulus, postfinance (after skip_bom, "
-        "Model/CsvImp.v: utfbom.SkipOnly), revolut2 (also the two-file cases), revolut, wise, swissquote, interactivebrokers the driver reads the statement's BYTES with the extracted "
+        "Model/CsvImp.v: utfbom.SkipOnly), supercard (csv_items_supercard, Model/CsvLatin1.v: ISO 8859-1 decoder in front, FieldsPerRecord 2, 13, -1 per call), revolut2 (also the two-file cases), revolut, wise, swissquote, interactivebrokers the driver reads the statement's BYTES with the extracted "
         "csv_items under that importer's settings (Model/CsvImp.v) and demands the reader items the harness recorded from Go "
         "(verdict csv-records), so the importer model runs on what the model itself read.")
 TRUSTED_BASE = [
@@ -72,12 +73,25 @@ TRUSTED_BASE = [
     "row readers are a second opinion now: the verdict `spec` for all six importers is the extracted Coq definition "
     "<importer>_statement_output (Spec/ImpStmtA.v) compared with stdout byte for byte, and does not depend on them",
     "encoding/csv is modelled (Model/Csv.v; settings per importer in Model/CsvImp.v) and tied by op C13.csv; for swisscard2, "
-    "swisscard, cumulus and postfinance (utfbom.SkipOnly = skip_bom in Model/CsvImp.v) the reader items are re-derived from the "
-    "statement's bytes by the extracted model (verdict csv-records).  Still observed, not modelled: encoding/json (viac: "
-    "json.Number) and charmap.ISO8859_1 with FieldsPerRecord changed between calls of Read (supercard): for these two the model starts from "
-    "the records/values those readers delivered, which the harness obtains by running the same reader configuration "
-    "(c13aReadItems cites the importer source lines).  That the harness (c13aReadItems, c13bReadItems) and Model/CsvImp.v "
-    "use the settings the importer sets is by reading the importer source (lines cited in both)",
+    "swisscard, cumulus, postfinance (utfbom.SkipOnly = skip_bom in Model/CsvImp.v) and supercard (Model/CsvLatin1.v: "
+    "charmap.ISO8859_1's decoder as latin1_decode in front, FieldsPerRecord assigned 2, 13, -1 before the first three calls of "
+    "Read as read_all_set) the reader items are re-derived from the statement's bytes by the extracted model (verdict "
+    "csv-records); latin1_decode is hand-modelled from the ISO 8859-1 table (byte b -> U+00b in UTF-8) and tied to "
+    "golang.org/x/text/encoding/charmap only through the supercard cases (statements with bytes >= 0x80, 0xA0 and 0x85 as "
+    "white space included).  Still observed, not modelled: encoding/json (viac: json.Number): there the model starts from "
+    "the values json.Unmarshal delivered (c13aViacItems).  That the harness (c13aReadItems, c13bReadItems) and "
+    "Model/CsvImp.v, Model/CsvLatin1.v use the settings the importer sets is by reading the importer source (lines cited in "
+    "both); that the IMPORTER uses them is tied through the statements: in about one well-formed statement in twelve the "
+    "generators put white space between the delimiter and the next field (TrimLeadingSpace readers: swisscard2, swisscard, "
+    "postfinance, supercard, revolut2, revolut, wise), free text with the delimiter, doubled quotes and newlines inside quoted "
+    "fields and CRLF line ends throughout, bare quotes in unquoted fields for the LazyQuotes readers (cumulus, postfinance, "
+    "swissquote), and the damaged kind `quote` (a bare quote / text after a closing quote) for the strict readers.  Sensitivity "
+    "(scratch copies of the clean tree): swisscard2 without TrimLeadingSpace: 26 spec failures (well-formed statement not "
+    "imported; likewise revolut2 38, wise 24, postfinance 13, supercard 254 and 19 disagreements; swisscard and revolut "
+    "statements carried blanks after the delimiter before); model mutations of Model/CsvLatin1.v: FieldsPerRecord kept at 13 "
+    "after the header - 29, byte 0xA0 decoded to a blank - 42 spec failures csv-records on supercard; revolut2 with LazyQuotes = true: no spec failure - unobservable on every well-formed statement, since a text "
+    "the strict reader accepts is read in the same way by the lazy one (proved: C13_csv_lazy_conservative, "
+    "C13_csv_set_lazy_conservative in Properties/C13csv.v) - but 29 disagreements model/binary on the damaged kind `quote`",
     "Model/Csv.v restrictions: Comma/Comment ASCII (all importers), input from memory (no I/O error of the underlying reader), "
     "line/column of a ParseError not modelled, nothing read after the first error; harness c13csv.go (generator, the Read loop, "
     "the classification of the error by errors.Is) and drv_c13csv.ml (decoding, rendering, the field-count verdict)",
@@ -102,8 +116,9 @@ ASSUMPTIONS = [
     "decimal exponents stay small (no 1e999999999 amounts)",
     "the importer theorems quantify over records; the step from file bytes to records is Model/Csv.v (C13_csv_total, "
     "C13_csv_field_count, C13_csv_items_shape for every byte string; C13_csv_roundtrip / C13_csv_items_of_written for canonically "
-    "written statements) for the nine importers whose csv reader is modelled (postfinance after BOM skipping); JSON (viac) and ISO 8859-1 "
-    "decoding (supercard) stay outside",
+    "written statements) for the nine importers whose csv reader is modelled (postfinance after BOM skipping); supercard: "
+    "C13_latin1_decode_total/_ascii/_injective, C13_latin1_byte_utf8, C13_csv_set_total, C13_csv_items_supercard_shape "
+    "(Model/CsvLatin1.v; no round-trip theorem through a writer for the reader with assigned FieldsPerRecord); JSON (viac) stays outside",
     "group B: every account flag is given and non-empty (an empty flag yields a nil account; not generated); revolut2 and revolut "
     "statements list rows in the order in which the Balance column is a running balance (revolut2: completion order, one currency "
     "per day; revolut: newest first) - see findings/C13-revolut2-balances.md, findings/C13-revolut-balances.md; swissquote exchange "
@@ -168,10 +183,16 @@ LEVEL_TEXT = ("C13_<importer>_faithful and C13_<importer>_end_to_end (Coq): for 
               "returned record (also before an error) has at least one field and the required number; C13_csv_items_shape: what the "
               "importer models take (records, then at most one failure item at the end) is what the reader model yields on any "
               "file; C13_csv_items_of_written: for a canonically written statement the items are its records, so the importer "
-              "theorems speak about the bytes of that file.")
-LEVEL_NOTE = ("Trusted: kernel, extraction, the harness' generators and runner, Go's json/charset readers (observed, not modelled; "
+              "theorems speak about the bytes of that file.  supercard's reader (Model/CsvLatin1.v): C13_latin1_decode_total (a "
+              "byte string decodes to a byte string of one or two bytes per byte), C13_latin1_byte_utf8 (each byte to the UTF-8 "
+              "encoding of the code point with its number), C13_latin1_decode_ascii (bytes below 0x80 unchanged), "
+              "C13_latin1_decode_injective; C13_csv_set_total, C13_csv_set_nil, C13_csv_items_supercard_shape for the reader "
+              "whose FieldsPerRecord is assigned before calls of Read (2, 13, then -1).  C13_csv_lazy_conservative / "
+              "C13_csv_set_lazy_conservative: if a reader returns records (no error) on a text, the same reader with LazyQuotes = true "
+              "returns the same records - LazyQuotes cannot be observed on a statement a strict reader accepts.")
+LEVEL_NOTE = ("Trusted: kernel, extraction, the harness' generators and runner, Go's json reader (viac; observed, not modelled) and charmap.ISO8859_1 (hand-modelled since ext-sc, tied by csv-records on the supercard cases; "
               "encoding/csv is modelled since ext-csv: Model/Csv.v, tied by C13.csv on 10^4 byte strings per run - 450 000 more with "
-              "three other seeds agreed - and by the verdict csv-records on every case of nine importers; model mutations `trailing "
+              "three other seeds agreed - and by the verdict csv-records on every case of ten importers (supercard since ext-sc); model mutations `trailing "
               "CR kept`, `U+3000 no space`, `closing quote at end of input needs LazyQuotes` give 156, 234 and 68 disagreements in 10^4), the "
               "printer model.  The verdict that the output is right is, for all eleven importers, an extracted Coq definition proved "
               "equal to what the importer model prints (C13_<importer>_stdout), evaluated on every generated well-formed statement "
